@@ -197,6 +197,7 @@ def check(prog: Program, run: Run) -> None:
     run.rule("C06.G1", "literal attribute names used by the dispatch code exist", floor=1)
     _walk(prog, run)
     _isolation(prog, run)
+    _dedupe(prog, run)
     _prefixes(prog, run)
     _const_prefix(prog, run)
     _binner(prog, run)
@@ -288,9 +289,12 @@ def _isolation(prog: Program, run: Run) -> None:
         f = prog.func(spec)
         fn = f.node
         cfg = CFG(fn)
-        loops = [l for l in walk_no_nested(fn) if isinstance(l, ast.For) and iter_frag in
-                 ast.unparse(l.iter) and any(isinstance(x, ast.Call) and call_name(x) == callee
-                                             for x in ast.walk(l))]
+        # the candidate loop: the one that calls <loop variable>.<callee>(...)
+        loops = [l for l in walk_no_nested(fn) if isinstance(l, ast.For) and isinstance(
+            l.target, ast.Name) and any(
+                isinstance(x, ast.Call) and call_name(x) == callee and isinstance(
+                    x.func, ast.Attribute) and isinstance(x.func.value, ast.Name) and
+                x.func.value.id == l.target.id for x in ast.walk(l))]
         if not loops:
             raise AnalysisError(f"{spec}: loop over {iter_frag} not found")
         lp = loops[0]
@@ -368,6 +372,54 @@ def _isolation(prog: Program, run: Run) -> None:
                       "raised under another condition)", f.loc)
 
 
+def _dedupe(prog: Program, run: Run) -> None:
+    """Interpretations are collected per service: when the collecting loops drop a result because
+    an EQUAL one is already there, equality of Message must tell services (and coding objects)
+    apart."""
+    R = "C06.R2"
+    mc = prog.classes.get("Message")
+    if mc is None:
+        raise AnalysisError("class Message not found")
+    ignored: List[str] = []
+    for st in mc.node.body:
+        if isinstance(st, ast.AnnAssign) and isinstance(st.target, ast.Name) and isinstance(
+                st.value, ast.Call) and call_name(st.value) == "field":
+            for k in st.value.keywords:
+                if k.arg == "compare" and isinstance(k.value, ast.Constant) and not k.value.value:
+                    ignored.append(st.target.id)
+    custom_eq = "__eq__" in mc.methods
+    no_eq = any(isinstance(d, ast.Call) and any(
+        k.arg == "eq" and isinstance(k.value, ast.Constant) and k.value.value is False
+        for k in d.keywords) for d in mc.node.decorator_list)
+    n = 0
+    for spec in ("DiagLayer._decode", "DiagService.decode_message"):
+        f = prog.func(spec)
+        cfg = CFG(f.node)
+        for x in walk_no_nested(f.node):
+            if not (isinstance(x, ast.Expr) and isinstance(x.value, ast.Call) and call_name(
+                    x.value) in ("append", "add", "extend")):
+                continue
+            n += 1
+            for t, _pol in cfg.branch_conditions(cfg.node_of(x)):
+                for c in ast.walk(t):
+                    if isinstance(c, ast.Compare) and any(isinstance(o, (ast.In, ast.NotIn, ast.Eq,
+                                                                         ast.NotEq))
+                                                          for o in c.ops) and isinstance(
+                            x.value.func, ast.Attribute) and ast.unparse(x.value.func.value) in [
+                                ast.unparse(y) for y in [c.left] + c.comparators]:
+                        if custom_eq or not no_eq and any(
+                                a in ("service", "coding_object") for a in ignored):
+                            run.violation(
+                                R, spec, "dedupe-ignores-service",
+                                f"`{stmt_key(x)}` is skipped when an equal Message was already "
+                                f"collected (`{ast.unparse(t)}`), and Message equality ignores "
+                                f"{ignored or ['fields (custom __eq__)']}: the interpretation of "
+                                "a second service that decodes the same bytes to the same values "
+                                "is dropped", f"{f.module.rel}:{x.lineno}", stmt_key(x))
+    run.ok(R, "Message", f"{n} collecting statements; no result is dropped for being equal to one "
+           "of another service", mc.loc)
+
+
 def _prefixes(prog: Program, run: Run) -> None:
     R = "C06.R3"
     f = prog.func("DiagService.decode_message")
@@ -378,10 +430,59 @@ def _prefixes(prog: Program, run: Run) -> None:
                if isinstance(x, ast.Assign) and isinstance(x.value, ast.Call) and
                call_name(x.value) == "coded_const_prefix"}
 
+    # prefixes computed ahead of the filter: a dict (keyed by the candidate or its id) or a list
+    # of (candidate, prefix) pairs
+    def _has_prefix_call(e: ast.AST) -> bool:
+        return any(isinstance(c_, ast.Call) and call_name(c_) == "coded_const_prefix"
+                   for c_ in ast.walk(e))
+    pdicts: Dict[str, ast.DictComp] = {}
+    ppairs: Dict[str, int] = {}
+    for x in walk_no_nested(f.node):
+        if isinstance(x, (ast.Assign, ast.AnnAssign)) and x.value is not None:
+            t_ = x.targets[0] if isinstance(x, ast.Assign) else x.target
+            if isinstance(t_, ast.Name) and isinstance(x.value, ast.DictComp) and \
+                    _has_prefix_call(x.value.value):
+                pdicts[t_.id] = x.value
+            if isinstance(t_, ast.Name) and isinstance(x.value, ast.ListComp) and isinstance(
+                    x.value.elt, ast.Tuple):
+                for i_, e_ in enumerate(x.value.elt.elts):
+                    if _has_prefix_call(e_):
+                        ppairs[t_.id] = i_
+    for x in walk_no_nested(f.node):
+        gens = x.generators if isinstance(x, (ast.ListComp, ast.GeneratorExp)) else (
+            [x] if isinstance(x, ast.For) else [])
+        for g_ in gens:
+            if isinstance(g_.iter, ast.ListComp) and isinstance(g_.iter.elt, ast.Tuple) and \
+                    isinstance(g_.target, ast.Tuple) and len(g_.target.elts) == len(
+                        g_.iter.elt.elts):
+                for t_, e_ in zip(g_.target.elts, g_.iter.elt.elts):
+                    if isinstance(t_, ast.Name) and _has_prefix_call(e_):
+                        plocals.add(t_.id)
+            if isinstance(g_.iter, ast.Name) and g_.iter.id in ppairs and isinstance(
+                    g_.target, ast.Tuple) and len(g_.target.elts) > ppairs[g_.iter.id] and \
+                    isinstance(g_.target.elts[ppairs[g_.iter.id]], ast.Name):
+                plocals.add(g_.target.elts[ppairs[g_.iter.id]].id)
+    by_name: List[str] = []
+
     class _P(ast.NodeTransformer):
         def visit_Call(self, node: ast.Call) -> ast.AST:
             if call_name(node) == "coded_const_prefix":
                 return ast.Name(id="PREFIX", ctx=ast.Load())
+            self.generic_visit(node)
+            return node
+
+        def visit_Subscript(self, node: ast.Subscript) -> ast.AST:
+            if isinstance(node.value, ast.Name) and node.value.id in pdicts:
+                dc = pdicts[node.value.id]
+                kd = ast.unparse(dc.key).replace(ast.unparse(dc.generators[0].target), "X")
+                if any(isinstance(y, ast.Attribute) and y.attr in ("short_name", "long_name")
+                       for y in ast.walk(dc.key)):
+                    by_name.append(ast.unparse(node))
+                    return node
+                names_ = [y.id for y in ast.walk(node.slice) if isinstance(y, ast.Name)
+                          and y.id != "id"]
+                if names_ and ast.unparse(node.slice).replace(names_[0], "X") == kd:
+                    return ast.Name(id="PREFIX", ctx=ast.Load())
             self.generic_visit(node)
             return node
 
@@ -399,8 +500,13 @@ def _prefixes(prog: Program, run: Run) -> None:
     alt = norm_test(ast.parse(f"{msg}.startswith(PREFIX)", mode="eval").body)
     got = [norm_test(_P().visit(copy.deepcopy(t))) for t in preds
            if "coded_const_prefix" in ast.unparse(t) or any(
-               isinstance(n_, ast.Name) and n_.id in plocals for n_ in ast.walk(t))]
-    if any(g_ in (want, alt) for g_ in got):
+               isinstance(n_, ast.Name) and n_.id in plocals | set(pdicts) for n_ in ast.walk(t))]
+    if by_name:
+        run.violation(R, "DiagService.decode_message", "prefix-by-name",
+                      f"`{by_name[0]}` looks the constant prefix of a candidate up by its NAME: a "
+                      "request and a response (or two responses) of one service may share their "
+                      "short name, so one of them is filtered with the other one's prefix", f.loc)
+    elif any(g_ in (want, alt) for g_ in got):
         run.ok(R, "DiagService.decode_message", "candidates are the coding objects whose constant "
                "prefix is a byte prefix of the message", f.loc)
     else:
